@@ -125,6 +125,17 @@ def r_argbind(ctx, callees, rule="R-ARGBIND", why=""):
                                 bad = (vn, k.arg, "keyword")
                                 break
                     key = "%s -> %s::%s" % (qualname(fn), qualname(t), " ".join(src(call.func).split()))
+                    # forwarding: an option the caller itself takes under the same name, and the callee gives a default to, is handed over -- otherwise
+                    # the caller's argument (validated or not) is silently replaced by the callee's default
+                    if getattr(t, "_cls", None) is not None and getattr(fn, "_cls", None) is t._cls and not any(k.arg is None for k in call.keywords if False):
+                        own = set(params_of(fn)[1:])
+                        given = {pos[i] for i in range(min(len(call.args), len(pos)))} | {k.arg for k in call.keywords if k.arg}
+                        defaults = set(pos[len(pos) - len(t.args.defaults):]) | set(kwonly)
+                        dropped = sorted(p0 for p0 in allp if p0 in own and p0 in defaults and p0 not in given and p0 != "self")
+                        if dropped and not any(k.arg is None and isinstance(k.value, ast.Name) and k.value.id != (fn.args.kwarg.arg if fn.args.kwarg else None) for k in call.keywords):
+                            ctx.ob(rule, key + "::forwards its own options", False,
+                                   "%s takes `%s` but does not hand it to %s, which then uses its default: the caller's value is ignored%s" % (
+                                       qualname(fn), dropped[0], qualname(t), why), loc(fn, call))
                     ctx.ob(rule, key, bad is None,
                            "arguments named like a parameter are bound to that parameter" if bad is None else
                            "`%s` is handed to parameter `%s` of %s (%s), which also has a parameter `%s`: the two values are exchanged%s"
